@@ -2,10 +2,11 @@
 # usage: seedtool.sh collect <Cxx> [name]   - verify the demo in /tmp/seed/<Cxx> and store patch+demo+meta under /verif/seeded/<name>
 #        seedtool.sh run <name> <check ids...> [tier]  - apply seeded/<name>/patch.diff to /repo, run the checks, undo
 export GOFLAGS=-mod=mod GOPROXY=off GOSUMDB=off GOTOOLCHAIN=local
+ROOT=$(dirname $(readlink -f $0))
 cmd=$1; shift
 case $cmd in
 collect)
-  id=$1; name=${2:-$id-a}; wt=${SEEDROOT:-/tmp/seed}/$id; out=/verif/seeded/$name
+  id=$1; name=${2:-$id-a}; wt=${SEEDROOT:-/tmp/seed}/$id; out=$ROOT/seeded/$name
   mkdir -p $out
   cd $wt || exit 2
   demo=$(git status --porcelain | grep seeded_demo_test.go | awk '{print $2}' | head -1)
@@ -29,17 +30,17 @@ run)
   # runs in a scratch worktree (never in /repo): VERIF_ALT_REPO makes check.py build against it
   name=$1; shift
   tier=quick
-  wt=/tmp/seedrun/$name
+  wt=/tmp/seedrun/$(basename $ROOT)-$name
   git -C /repo worktree remove --force $wt 2>/dev/null; rm -rf $wt; mkdir -p /tmp/seedrun
   git -C /repo worktree add --detach -q $wt HEAD || exit 2
-  (cd $wt && git apply /verif/seeded/$name/patch.diff) || { echo "patch does not apply"; git -C /repo worktree remove --force $wt; exit 2; }
+  (cd $wt && git apply $ROOT/seeded/$name/patch.diff) || { echo "patch does not apply"; git -C /repo worktree remove --force $wt; exit 2; }
   for c in "$@"; do
     if [ "$c" = thorough ] || [ "$c" = quick ]; then tier=$c; continue; fi
   done
   for c in "$@"; do
     if [ "$c" = thorough ] || [ "$c" = quick ]; then continue; fi
     t0=$(date +%s)
-    (cd /verif && VERIF_ALT_REPO=$wt python3 check.py $c $tier 2>&1 | grep -a -E "VIOLATION|^OK|INCONCLUSIVE|rapid\] failed|KNOWN" | cut -c1-400 | head -5)
+    (cd $ROOT && VERIF_ALT_REPO=$wt python3 check.py $c $tier 2>&1 | grep -a -E "VIOLATION|^OK|INCONCLUSIVE|rapid\] failed|KNOWN" | cut -c1-400 | head -5)
     echo "  [$c $tier: $(( $(date +%s) - t0 )) s]"
   done
   git -C /repo worktree remove --force $wt; git -C /repo worktree prune
